@@ -223,7 +223,9 @@ def run(ctx: Ctx):
             gen = node
     if gen is None:
         raise AnalysisError(f"{P_PYUTILS}: _get_additional_methods not found")
-    git = Interp(name=P_PYUTILS)
+    # module-level constants / helper functions of utils.py are available to the fold (a method table hoisted out of
+    # the function, helpers split off it)
+    git = Interp(utree, name=P_PYUTILS)
     gclasses = {}
     for cn in ("Position", "Range", "Location"):
         try:
